@@ -2,6 +2,7 @@
 were created; they must not overwrite newer state.  STALE-ts, STALE-removal, MUST-admit-live."""
 from .core import RuleResult, CheckFailure
 from .kernel import norm
+from .roles import CHAN_RECV
 from .roles import get_roles, DASHMAP_REMOVE
 from .symex import fmt, subterms, PathLimit
 
@@ -22,7 +23,7 @@ def rule_stale_ts(ctx):
     R = get_roles(ctx)
     if not R.maintenance:
         return r
-    consumers = [n for n in _maintenance_fns(ctx) if 'crossbeam_channel::Receiver::try_recv' in R.ext_calls.get(n, ()) and prog.bodies[n].kind != 'closure']
+    consumers = [n for n in _maintenance_fns(ctx) if bool(CHAN_RECV & set(R.ext_calls.get(n, ()))) and prog.bodies[n].kind != 'closure']
     if len(consumers) < 2:
         raise CheckFailure('STALE-ts: expected the read-op and write-op consumers, found %s' % consumers)
     nwrites = 0
@@ -203,7 +204,7 @@ def rule_must_drain(ctx):
         if b.kind == 'closure':
             continue
         for _, t in b.calls():
-            if prog.call_targets(b, t)[1] == 'crossbeam_channel::Receiver::try_recv':
+            if prog.call_targets(b, t)[1] in CHAN_RECV:
                 ty = t.get('self_ty', {}).get('s', '')
                 consumers[n] = 'read' if 'ReadOp' in ty else ('write' if 'WriteOp' in ty else '?')
     for m in sorted(R.maintenance):
@@ -242,7 +243,7 @@ def rule_auth_ts_writers(ctx):
         writers = {x for x in prog.bodies if any(('write', EI, f) in eff.direct.get(x, ()) for f in ('last_accessed', 'last_modified'))}
         maint = _maintenance_fns(ctx)
         read_cons = {x for x in maint if prog.bodies[x].kind != 'closure' and any('ReadOp' in t.get('self_ty', {}).get('s', '') for _, t in prog.bodies[x].calls()
-                                                                                   if prog.call_targets(prog.bodies[x], t)[1] == 'crossbeam_channel::Receiver::try_recv')}
+                                                                                   if prog.call_targets(prog.bodies[x], t)[1] in CHAN_RECV)}
         for fn in sorted(maint):
             if fn in read_cons or fn in R.maintenance or prog.bodies[fn].kind == 'closure':
                 continue
